@@ -101,6 +101,9 @@ func (c11) Generate(r *sim.Rand, tier string) *sim.Scenario {
 	}
 	if r.Bool(0.25) {
 		sc.Cfg["init"] = 1
+	} else if r.Bool(0.25) {
+		sc.Cfg["init"] = 2
+		sc.Data["initk"] = genLibInit(r)
 	} else {
 		zeros := r.Bool(0.15)
 		w, b := make([]float64, O), make([]float64, O)
@@ -406,12 +409,19 @@ func (c11) execOne(sc *sim.Scenario) *sim.Outcome {
 	sim.SeedLibraryRNG(uint64(sc.Cfg["rngseed"]))
 	/* assemble the model from the library's parts */
 	fcc := &layers.FCConfig{Inputs: cfg.D, Outputs: cfg.O}
-	if sc.CfgInt("init") == 0 {
+	switch sc.CfgInt("init") {
+	case 0:
 		if len(sc.Data["W0"]) != cfg.O || len(sc.Data["B0"]) != cfg.O {
 			out.Discard = "malformed"
 			return out
 		}
 		fcc.Initializers = map[string]layers.Initializer{"Weight": hInit{sc.Data["W0"]}, "Bias": hInit{sc.Data["B0"]}}
+	case 2:
+		fcc.Initializers = libInitializers(sc.Data["initk"])
+		if fcc.Initializers == nil {
+			out.Discard = "malformed"
+			return out
+		}
 	}
 	fc, err := layers.NewFC(fcc)
 	if err != nil {
@@ -785,4 +795,28 @@ func (c11) Shrinks(sc *sim.Scenario) []*sim.Scenario {
 		}
 	}
 	return out
+}
+
+// libInitializers builds the FC initializer map from library initializers:
+// k = [kind for Weight, kind for Bias, share] — share = 1 uses ONE initializer
+// instance for both keys (kinds are then equal).
+func libInitializers(k []float64) map[string]layers.Initializer {
+	if len(k) != 3 {
+		return nil
+	}
+	w := c10Initializer(int(k[0]))
+	b := c10Initializer(int(k[1]))
+	if k[2] == 1 {
+		b = w
+	}
+	return map[string]layers.Initializer{"Weight": w, "Bias": b}
+}
+
+func genLibInit(r *sim.Rand) []float64 {
+	kw, kb := r.Intn(len(c10InitKinds)), r.Intn(len(c10InitKinds))
+	share := 0.0
+	if r.Bool(0.4) {
+		kb, share = kw, 1
+	}
+	return []float64{float64(kw), float64(kb), share}
 }
